@@ -14,7 +14,8 @@ cd $WT
 git apply $SEED/patch.diff || { echo "SEED-RESULT apply-failed"; exit 9; }
 PKGS=$(git diff --name-only | xargs -n1 dirname | sort -u | sed 's#^#./#')
 DEMO=$(ls $SEED/*_test.go | head -1)
-DEMODIR=$(grep -m1 -o 'go test[^\n]*-run[^\n]*' $SEED/notes.txt | grep -o '\./[A-Za-z0-9_/.]*' | tail -1)
+DEMODIR=$(grep -o 'go test[^|]*-run Demo[A-Za-z0-9_]* *\./[A-Za-z0-9_/.]*' $SEED/notes.txt | grep -o '\./[A-Za-z0-9_/.]*' | tail -1)
+[ -z "$DEMODIR" ] && DEMODIR=$(grep -m1 -o 'go test[^\n]*-run[^\n]*' $SEED/notes.txt | grep -o '\./[A-Za-z0-9_/.]*' | tail -1)
 [ -z "$DEMODIR" ] && DEMODIR=$(echo $PKGS | awk '{print $1}')
 go build ./... >/dev/null 2>&1 || { echo "SEED-RESULT build-failed"; exit 9; }
 if go test -vet=off -count=1 $PKGS >/tmp/seed_tests_$$.log 2>&1; then T=pass; else T=FAIL; fi
@@ -23,11 +24,12 @@ if go test -vet=off -count=1 -run 'Demo' $DEMODIR >/tmp/seed_demo1_$$.log 2>&1; 
 git apply -R $SEED/patch.diff
 if go test -vet=off -count=1 -run 'Demo' $DEMODIR >/tmp/seed_demo2_$$.log 2>&1; then D2=pass; else D2=fail; fi
 echo "SEED-CONFIRM seed=$(basename $SEED) pkgs=[$PKGS] existing-tests=$T demo-with-patch=$D1 demo-without-patch=$D2"
+cd $WT && git checkout -q -- . && git clean -fdq && git apply $SEED/patch.diff || exit 9
 cd /verif
-git -C /repo apply $SEED/patch.diff || exit 9
-timeout 1500 bin/gosym check $PROP -noevidence "$@" > /tmp/seed_check_$$.log 2>&1
+# the check runs against the patched scratch worktree (same engine, same harnesses), so /repo is
+# never touched and several seeds can be checked while other runs use /repo
+timeout 1500 bin/gosym check $PROP -noevidence -repo $WT "$@" > /tmp/seed_check_$$.log 2>&1
 RC=$?
-git -C /repo checkout -- . 
 echo "SEED-CHECK seed=$(basename $SEED) property=$PROP exit=$RC"
 grep -A1 "^VIOLATION\|^INCONCLUSIVE" /tmp/seed_check_$$.log | head -12
 rm -f /tmp/seed_*_$$.log
